@@ -1,0 +1,119 @@
+//go:build verif
+
+package hsms
+
+// This file exists only under the `verif` build tag. It exports seams of the connection lifecycle
+// (Open/Close/reconnect loop) for the external verification harness (/verif): it adds code only
+// and changes no production behaviour.
+
+import (
+	"reflect"
+	"time"
+)
+
+// VerifNextBackoffDelay runs the reconnect loop's backoff step (nextBackoffDelay).
+func VerifNextBackoffDelay(cur time.Duration, multiplier float64, ceil time.Duration) time.Duration {
+	return nextBackoffDelay(cur, multiplier, ceil)
+}
+
+// verifCore finds the shared engine behind a Connection: either the engine itself or a wrapper
+// struct that embeds the hsms.Connection interface (hsmsss.New / secs1.New return such wrappers).
+func verifCore(c Connection) *connection {
+	for depth := 0; depth < 4 && c != nil; depth++ {
+		if core, ok := c.(*connection); ok {
+			return core
+		}
+
+		v := reflect.ValueOf(c)
+		if v.Kind() == reflect.Pointer {
+			v = v.Elem()
+		}
+
+		if v.Kind() != reflect.Struct {
+			return nil
+		}
+
+		f := v.FieldByName("Connection")
+		if !f.IsValid() || !f.CanInterface() {
+			return nil
+		}
+
+		inner, ok := f.Interface().(Connection)
+		if !ok {
+			return nil
+		}
+
+		c = inner
+	}
+
+	return nil
+}
+
+// VerifLifecycleState is a snapshot of the lifecycle fences of a connection. Each field is read
+// with the same atomic load the lifecycle code itself uses; the snapshot as a whole is not atomic
+// (take it at a quiescent point).
+type VerifLifecycleState struct {
+	Found        bool   // the engine behind the Connection was found
+	Shutdown     bool   // connection.shutdown
+	ReconnectGen uint64 // connection.reconnectGen
+	SupSet       bool   // connection.sup != nil
+	SupStopped   bool   // the supervisor's run goroutine has returned (runDone closed)
+	CurSet       bool   // connection.cur != nil
+	CurDone      bool   // the current epoch's bounded join has completed (done closed)
+	CurCancelled bool   // the current epoch's context is cancelled (teardown began)
+	LoopsLive    int64  // the connRetry gauge: reconnect loops between their first and last statement
+	Reconnects   uint64 // cumulative successful re-establishments
+}
+
+// VerifLifecycleSnapshot reads the lifecycle fences of c.
+func VerifLifecycleSnapshot(c Connection) VerifLifecycleState {
+	core := verifCore(c)
+	if core == nil {
+		return VerifLifecycleState{}
+	}
+
+	st := VerifLifecycleState{
+		Found:        true,
+		Shutdown:     core.shutdown.Load(),
+		ReconnectGen: core.reconnectGen.Load(),
+		LoopsLive:    core.metrics.Reconnecting(),
+		Reconnects:   core.metrics.Reconnects(),
+	}
+
+	if s := core.sup.Load(); s != nil {
+		st.SupSet = true
+
+		select {
+		case <-s.runDone:
+			st.SupStopped = true
+		default:
+		}
+	}
+
+	if e := core.cur.Load(); e != nil {
+		st.CurSet = true
+		st.CurCancelled = e.ctx.Err() != nil
+
+		select {
+		case <-e.done:
+			st.CurDone = true
+		default:
+		}
+	}
+
+	return st
+}
+
+// VerifSetConnectLoopHook installs the reconnect loop's existing test seam (testHookConnectLoop:
+// called once per attempt between the backoff sleep and the F3 fence). It must be called before
+// the first Open; it reports whether the engine was found.
+func VerifSetConnectLoopHook(c Connection, hook func()) bool {
+	core := verifCore(c)
+	if core == nil {
+		return false
+	}
+
+	core.testHookConnectLoop = hook
+
+	return true
+}
